@@ -136,6 +136,7 @@ func (c *InternedStringCodec) Read(data []byte, ptr unsafe.Pointer, wt plenccore
 
 	s, ok := m[string(data)]
 	if !ok {
+		verifYield("intern.miss")
 		s = c.addString(data)
 	}
 
@@ -144,7 +145,9 @@ func (c *InternedStringCodec) Read(data []byte, ptr unsafe.Pointer, wt plenccore
 }
 
 func (c *InternedStringCodec) addString(data []byte) string {
+	verifAwaitUnlocked(&c.Mutex)
 	c.Lock()
+	verifYield("intern.locked")
 	defer c.Unlock()
 	p := atomic.LoadPointer(&c.strings)
 	m := *(*map[string]string)((unsafe.Pointer)(&p))
@@ -161,6 +164,7 @@ func (c *InternedStringCodec) addString(data []byte) string {
 		s = string(data)
 		m2[s] = s
 
+		verifYield("intern.publish")
 		atomic.StorePointer(&c.strings, *(*unsafe.Pointer)(unsafe.Pointer(&m2)))
 	}
 	return s
